@@ -20,6 +20,8 @@ def step (st : DState) (line : String) : DState × String :=
   let bad := (st, "bad-op")
   match fields with
   | ["reg.reset"] => ({ st with R := [] }, "ok")
+  | ["reg.synthetic"] => ({ st with R := [] }, "ok")
+  | ["reg.bundled"] => ({ st with R := [] }, "ok")
   | ["reg.add", cc, code, bic, primary, algo, name, short] =>
     match parseStr cc, parseStr code, parseBool primary, parseStr name, parseStr short with
     | some cc, some code, some p, some nm, some sh =>
@@ -139,6 +141,28 @@ def step (st : DState) (line : String) : DState × String :=
       | some a => (st, showRes showBool (a.ref.validate X.U comps ex))
       | none => (st, "none")
     | _, _, _ => bad
+  | ["json.merge", l, r] =>
+    match parseJ l, parseJ r with
+    | some (.obj a), some (.obj b) => (st, "ok " ++ showJ (.obj (mergeDicts a b)))
+    | _, _ => bad
+  | ["json.parse_v2", d] =>
+    match parseJ d with
+    | some d => (st, match parseV2 d with
+        | some l => "ok " ++ showJ (.arr l)
+        | none => "exception")
+    | none => bad
+  | "registry.get" :: files =>
+    -- files: name=doc pairs
+    match files.mapM (fun f => match f.splitOn "=" with
+        | [n, d] => do
+          let n ← parseStr n
+          let d ← parseJ d
+          pure (⟨n, d⟩ : RegFile)
+        | _ => none) with
+    | some fs => (st, match registryGet fs with
+        | some d => "ok " ++ showJ d
+        | none => "exception")
+    | none => bad
   | op :: args =>
     match Spec.dispatch X op args with
     | some out => (st, out)
